@@ -6,7 +6,7 @@ From PV Require Import Base.Bytes Base.Outcome Base.KV Compkey.Model Aol.Model A
 From PV Require Generated.GenNft.
 From PV Require Pagination.Model Pnft.Query.
 From PV Require Sign.Model.
-From PV Require Upgrade.Model Upgrade.Repo Generated.GenUpgrade.
+From PV Require Upgrade.Model Upgrade.Baseline Generated.GenUpgrade.
 Import ListNotations.
 
 Record pending := {
@@ -864,7 +864,7 @@ Definition chain_cmd (st : dstate) (cmd : tok) (args : list tok) : option (dstat
             let ups := Generated.GenUpgrade.upgrades in
             match nth_error ups (N.to_nat k') with
             | Some d =>
-                let disk := Upgrade.Model.upgrade_path Upgrade.Repo.baseline (firstn (N.to_nat k') ups) in
+                let disk := Upgrade.Model.upgrade_path Upgrade.Baseline.baseline (firstn (N.to_nat k') ups) in
                 Some (st, [join_toks [b "U"; b "probe"; tok_of_bytes (b (Upgrade.Model.d_name d));
                                       if Upgrade.Model.load_ok Generated.GenUpgrade.mounted_stores disk (Some d) then b "ok" else b "fail"]])
             | None => Some (st, [b "U probe ? bad-index"])
